@@ -518,11 +518,13 @@ def prior(draw):
 
 FOLD_INT = [2, 0, 11, -3, 5]
 FOLD_STR = ['r2', 'r10', 'a', 'r1', 'B']
+# fold labels are labels: fractional run numbers (1.5 = second half of run 1) and booleans too
+FOLD_FLOAT = [1.0, 1.5, 2.0, 2.5, 0.25, -1.5]
 
 
 @st.composite
 def fold_values(draw, m):
-    pool = draw(st.sampled_from([FOLD_INT, FOLD_STR]))
+    pool = draw(st.sampled_from([FOLD_INT, FOLD_STR, FOLD_FLOAT]))
     idx = draw(st.lists(st.integers(0, len(pool) - 1), min_size=m, max_size=m, unique=True))
     return [pool[i] for i in idx]
 
